@@ -80,6 +80,7 @@ FAMILIES = {
     "camel": {"module": "CamelCase", "judge": "CamelCaseTrace"},
     "typeref": {"module": "TypeRef", "judge": "TypeRefTrace"},
     "template": {"module": "Template", "judge": "TemplateTrace"},
+    "results": {"module": "MC_FuncResults", "judge": "FuncResultsTrace"},
     "universe": {"module": "MC_Universe", "judge": "UniverseTrace"},
     "dispatch": {"module": "Dispatch", "judge": "DispatchTrace"},
     "pipeline": {"module": "MC_PipelineHist", "judge": "PipelineTrace", "by_history": True},
@@ -168,6 +169,35 @@ def check_C13(ctx):
         "MethodsOf is compared for non-interface named types only (whether interface methods are 'declared methods' is left open by the statement)",
         "init and blank-named functions are set aside as the statement says",
         "map iteration orders of the real loader are sampled, all orders only on the model",
+    ], fails)
+
+
+def check_C14(ctx):
+    res = run_family(ctx, "results", "MC_FuncResults", ["FuncResults_gen.cfg"], "FuncResultsTrace", rand_n=1, a_cfgs=["FuncResults_A.cfg"], shard=4000,
+                     exec_timeout=5400)
+    fails = vlib.collect_failures(res["trace"], res["bad"], "results", only_prefix="C14")
+    tr = res["trace"]
+    corpus = [r for r in tr if r["case"]["kind"] == "corpus"]
+    cov = {
+        "traces_validated_against_impl": len(tr),
+        "evaluations": len(tr),
+        "distinct_nontrivial": _distinct(tr, lambda r: r["obs"]["declared_n"] > 0, key=lambda r: json.dumps([r["case"].get("pkg"), r["case"].get("func"), r["case"].get("shapes")])),
+        "rule": "Loop A: the (function, result index) depth-first search with visited marks terminates for every call graph of the model incl. self / mutual recursion and cross-index "
+                "forwarding (TLC; unbounded descent shown when only the first index of a function is marked). Loop B: every assignment of 13 source shapes (literal-only returns with "
+                "operators, (T, error) pairs, self and mutual recursion, closure argument with more results than the callee, named results, multi-value forwarding to a sibling, foreign "
+                "call, interface call, assigned variable) to three functions is one generated package (2197 packages); plus every function and method of the dependency closure of gengo's own "
+                "module. ResultsOf runs in a supervised child (48 MB stack cap, 8 s per unit; a unit that kills the child is recorded and the child restarted behind it). "
+                "Non-trivial = units with at least one declared result.",
+        "exhaustive": True,
+        "corpus_units": len(corpus),
+        "corpus_packages": len({r["case"]["pkg"] for r in corpus}),
+        "units_fatal_or_timeout": sum(1 for r in tr if r["obs"]["fatal"] or r["obs"]["timeout"]),
+        "samples": [{"case": r["case"], "obs": {k: r["obs"][k] for k in ("declared_n", "n", "lens", "alts", "again_equal")}} for r in tr[:: max(1, len(tr) // 4)][:4]],
+    }
+    return vlib.finish(ctx, "model_checking", cov, [
+        "an alternative counts as possible when it is a constant, or its go/types type is AssignableTo the declared result type (types.AssignableTo is the oracle)",
+        "exact alternatives are judged only for the literal-only shapes whose expected lists the specification states",
+        "units are the package-scope functions and the declared methods of package-scope named types",
     ], fails)
 
 
@@ -478,6 +508,7 @@ CHECKS = {
     "C09": check_C09,
     "C12": check_C12,
     "C13": check_C13,
+    "C14": check_C14,
     "C15": check_C15,
     "C19": check_C19,
     "C20": check_C20,
